@@ -477,7 +477,8 @@ class G:
         defs = []
         for dn, dinfo in wc["defs"].items():
             dsc = Scope("def", sc)
-            dsc.vars = list(sc.vars) + [(p, "str") for p in dinfo["req"]]
+            # (a context name that is also a body argument of this call is, in the call's other defs, still the context name)
+            dsc.vars = list(sc.vars) + [(a, "str") for a in wc["body_args"] if a.startswith("cx")] + [(p, "str") for p in dinfo["req"]]
             dsc.foreign = {v for v, _ in sc.vars}
             dsc.defs = dict(sc.defs)
             dnode = {"t": "def", "name": dn, "sig": ", ".join(dinfo["req"]), "body": self.body(dsc, depth + 1, minlen=1, allow_empty=False)}
